@@ -31,7 +31,7 @@ Four sub-domains (case["mode"]):
             Password / InMemoryPrivateKey / OnDiskPrivateKey / NoneAuth sources (1-2 of them);
             agent and ~/.ssh discovery are off.
  pinned     (a second sshclient / history generator) at least one line, every pinned key one that no server of the harness
-            presents, overlapping lines frequent, the policy mostly an accepting one: the region where "known host,
+            presents (a marker line there carries a key the servers DO present), overlapping lines frequent, the policy mostly an accepting one: the region where "known host,
             different key -> nothing is sent" is all that stands between the credentials and an impostor.
  history    ONE SSHClient object (system store + user store loaded from generated known_hosts texts:
             plain and hashed names of two hosts (each in one of 4 spellings) x three ports, 7 keys, the same line forms,
@@ -264,16 +264,31 @@ sshclient_st = _sshclient(overlapping(entry_st), POLICIES)
 # pin-centred: at least one line, every pinned key is one the server does NOT present, the policy mostly one that would accept
 # an unknown host, overlapping lines frequent: the region where "known host, different key -> nothing is sent" is all that
 # stands between the credentials and an impostor
-pinned_entry_st = st.fixed_dictionaries(
-    {
-        "names": st.lists(st.sampled_from(["exact", "exact", "bare", "otherport", "otherhost"]), min_size=1, max_size=2, unique=True),
-        "hashed": st.booleans(),
-        "key": st.sampled_from(FOREIGN_KEYS),
-        "form": form_st,
-        "before": before_st,
-    }
-)
-pinned_st = _sshclient(overlapping(pinned_entry_st, min_size=1, often=True), ACCEPTING * 3 + ["reject", "raise"])
+# (a MARKER line of a pin-centred file carries a key the servers do present: the key such a line must not turn into a pin)
+pinned_form_st = st.sampled_from(FORMS + list(MARKERS))
+
+
+def _pinned_entry(names):
+    return pinned_form_st.flatmap(
+        lambda form: st.fixed_dictionaries(
+            {"names": names, "hashed": st.booleans(), "key": st.sampled_from(SERVER_KEY_TYPES if form in MARKERS else FOREIGN_KEYS), "form": st.just(form), "before": before_st}
+        )
+    )
+
+
+pinned_entry_st = _pinned_entry(st.lists(st.sampled_from(["exact", "exact", "bare", "otherport", "otherhost"]), min_size=1, max_size=2, unique=True))
+PREFERENCE = ["ed25519", "ecdsa256", "rsa2048"]  # generation bias only: the key a server offering several is likely to present
+
+
+@st.composite
+def _pinned_sshclient(draw):
+    """... and half of the marker lines carry exactly the key this case's server is going to present."""
+    d = draw(_sshclient(overlapping(pinned_entry_st, min_size=1, often=True), ACCEPTING * 3 + ["reject", "raise"]))
+    likely = [k for k in PREFERENCE if k in d["server_keys"]][0]
+    return dict(d, entries=[dict(e, key=likely) if e["form"] in MARKERS and draw(st.booleans()) else e for e in d["entries"]])
+
+
+pinned_st = _pinned_sshclient()
 
 HOSTS = [HOST, OTHERHOST]  # history mode: case["spell"] = [i, j] selects the spelling of each (absent: these)
 CONNECT_PORTS = [22, 2222]
@@ -316,7 +331,7 @@ def _history(hentry, cev, often=False):
 
 history_st = _history(hentry_st, connect_ev)
 # pin-centred histories: every pinned key is foreign to the servers, the policies mostly accepting (see pinned_st)
-pinned_hentry_st = st.fixed_dictionaries({"names": st.lists(name_st, min_size=1, max_size=2, unique_by=tuple), "hashed": st.booleans(), "key": st.sampled_from(FOREIGN_KEYS), "form": form_st, "before": before_st})
+pinned_hentry_st = _pinned_entry(st.lists(name_st, min_size=1, max_size=2, unique_by=tuple))
 pinned_connect_ev = st.fixed_dictionaries(
     {
         "op": st.just("connect"),
